@@ -39,7 +39,8 @@ STUBS = ["torch.randperm / torch.rand / torch.randn while an aggregator call is 
 ASSUMPTIONS = [
     "only the PCGrad, GradDrop and Random clauses are decided; MGDA and CAGrad clauses have no seam",
     "PCGrad is continuous in its input (projection-if-negative), so the reference comparison uses a forward error bound 64*(n+m)*m^2*eps*max row norm and no branch margin",
-    "GradDrop ties |f(P)-U| <= 4 eps accept keep-positive, keep-negative or neither",
+    "GradDrop: membership of every coordinate in {keep-positive, keep-negative} (+ neither at a tie) is what the statement asks; the branch check accepts either convention f(P)>U or f(P)>1-U as long as one of them explains all columns",
+    "PCGrad: for m<=4 the verdict is membership in the exhaustive candidate set of all order combinations (the statement allows whatever orders are drawn); for m in {5,6}, where that set is too large, a mismatch with the reference under the recorded orders is judged only after five other ways of choosing orders from the same draws (rows reversed, read backwards, inverse permutation, fixed ascending/descending) have been tried -- an implementation choosing valid orders in yet another way would be flagged there; Random: equality with softmax of the draw is recorded, not judged",
     "if the implementation stops drawing through these functions the seam records nothing and only the seam-agnostic oracles apply (reported as seam_reached=false)",
 ]
 
@@ -224,9 +225,37 @@ def execute(scn):
             if max_proj >= 2:
                 stats["reach.pcgrad_two_or_more_successive_projections"] = 1
             nontrivial = max_proj >= 2
-            d = float(np.abs(got - ref).max())
-            if got.shape != ref.shape or not np.all(np.isfinite(got)) or d > tol:
-                viols.append({"clause": "pcgrad_differs_from_algorithm_under_recorded_orders", "step": 0, "details": {"max_abs_diff": d, "tol": tol, "orders": [r[2] for r in rec], "m": m}, "key": {}})
+            d = float(np.abs(got - ref).max()) if got.shape == ref.shape else float("inf")
+            if not np.all(np.isfinite(got)) or d > tol:
+                # other ways of consuming the same m draws that realise the same published algorithm:
+                # draws assigned to rows in reverse, a permutation read backwards, or as its inverse
+                perms = [r[2] for r in rec]
+                alts = {
+                    "rows_reversed": perms[::-1],
+                    "read_backwards": [p[::-1] for p in perms],
+                    "inverse_permutation": [[p.index(t) for t in range(m)] for p in perms],
+                    "fixed_ascending_order": [list(range(m)) for _ in perms],
+                    "fixed_descending_order": [list(range(m))[::-1] for _ in perms],
+                }
+                if len({tuple(p) for p in perms}) == 1:
+                    alts = {}  # nothing to disambiguate
+                matched = None
+                for name, pp in alts.items():
+                    r2, _ = pcgrad_ref(J, pp)
+                    if got.shape == r2.shape and float(np.abs(got - r2).max()) <= tol:
+                        matched = name
+                        break
+                if matched:
+                    stats["reach.pcgrad_other_draw_convention_" + matched] = 1
+                elif m <= 4:
+                    # for m<=4 the statement ("for whatever orders it draws") is decided by membership in
+                    # the exhaustive candidate set below; a mismatch with the recorded orders alone is
+                    # a mechanism-level observation
+                    stats["reach.pcgrad_recorded_orders_not_followed"] = 1
+                    scn = dict(scn)
+                    scn["stratum"] = None
+                else:
+                    viols.append({"clause": "pcgrad_differs_from_algorithm_under_recorded_orders", "step": 0, "details": {"max_abs_diff": d, "tol": tol, "orders": perms, "m": m}, "key": {}})
             eff = [[j for j in r[2] if j != i] for i, r in enumerate(rec)]
             sets["pcgrad_order_tuples"] = [f"{m}:{eff}"]
         else:
@@ -284,26 +313,36 @@ def execute(scn):
             else:
                 stats["reach.seam_not_reached"] = 1
             branches = set()
+            conv_bad = {"A": [], "B": []}  # columns inconsistent with: A  pos iff f(P) > U ; B  pos iff f(P) > 1-U
             for c in range(n):
-                cands = {"pos": keep_pos[c], "neg": keep_neg[c]}
-                allowed = ["pos", "neg"]
+                cands = {"pos": keep_pos[c], "neg": keep_neg[c], "none": keep_none[c]}
+                member = any(abs(got[c] - cands[a]) <= tolv[c] for a in ("pos", "neg"))
                 if seam_ok and math.isfinite(P[c]):
                     p, u = P[c], float(Ud[c])
-                    if abs(p - u) <= 4 * eps * max(abs(p), abs(u)):
-                        allowed = ["pos", "neg", "none"]
-                        cands["none"] = keep_none[c]
-                        stats["reach.graddrop_tie_draw"] = stats.get("reach.graddrop_tie_draw", 0) + 1
-                    elif p > u:
-                        allowed = ["pos"]
-                    else:
-                        allowed = ["neg"]
+                    for conv, uu in (("A", u), ("B", 1.0 - u)):
+                        if abs(p - uu) <= 8 * eps * max(abs(p), abs(uu), 1.0):
+                            allowed = ["pos", "neg", "none"]
+                        elif p > uu:
+                            allowed = ["pos"]
+                        else:
+                            allowed = ["neg"]
+                        if not any(abs(got[c] - cands[a]) <= tolv[c] for a in allowed):
+                            conv_bad[conv].append(c)
+                        if conv == "A":
+                            if len(allowed) == 3:
+                                stats["reach.graddrop_tie_draw"] = stats.get("reach.graddrop_tie_draw", 0) + 1
+                                member = member or abs(got[c] - cands["none"]) <= tolv[c]
+                            else:
+                                branches.add(allowed[0])
                     if u == 0.0:
                         stats["reach.graddrop_uniform_zero"] = stats.get("reach.graddrop_uniform_zero", 0) + 1
-                    branches.add(allowed[0])
-                ok = any(abs(got[c] - cands[a]) <= tolv[c] for a in allowed)
-                if not ok:
-                    clause = "graddrop_branch_differs_from_recorded_uniform" if seam_ok and len(allowed) == 1 and any(abs(got[c] - v) <= tolv[c] for v in (keep_pos[c], keep_neg[c])) else "graddrop_coordinate_not_a_sign_sum_with_leak"
-                    viols.append({"clause": clause, "step": 0, "details": {"column": c, "got": float(got[c]), "keep_positive": float(keep_pos[c]), "keep_negative": float(keep_neg[c]), "purity": P[c], "uniform": None if Ud is None else float(Ud[c]), "allowed": allowed, "leak": leak}, "key": {}})
+                if not member:
+                    viols.append({"clause": "graddrop_coordinate_not_a_sign_sum_with_leak", "step": 0, "details": {"column": c, "got": float(got[c]), "keep_positive": float(keep_pos[c]), "keep_negative": float(keep_neg[c]), "purity": P[c], "uniform": None if Ud is None else float(Ud[c]), "leak": leak}, "key": {}})
+            if seam_ok and conv_bad["A"] and conv_bad["B"] and not viols:
+                c = conv_bad["A"][0]
+                viols.append({"clause": "graddrop_branch_differs_from_recorded_uniform", "step": 0, "details": {"columns_inconsistent_with_f(P)>U": conv_bad["A"], "columns_inconsistent_with_f(P)>1-U": conv_bad["B"], "column": c, "got": float(got[c]), "keep_positive": float(keep_pos[c]), "keep_negative": float(keep_neg[c]), "purity": P[c], "uniform": float(Ud[c])}, "key": {}})
+            if seam_ok and not conv_bad["A"]:
+                stats["reach.graddrop_convention_pos_iff_fP_gt_U"] = 1
             if branches == {"pos", "neg"}:
                 stats["reach.graddrop_both_branches_in_one_call"] = 1
     else:
@@ -326,8 +365,10 @@ def execute(scn):
             sm = np.exp(z - z.max())
             sm = sm / sm.sum()
             d = float(np.abs(got - sm @ J).max())
-            if got.shape != (n,) or d > tol:
-                viols.append({"clause": "random_not_softmax_of_recorded_draw", "step": 0, "details": {"max_abs_diff": d, "tol": tol, "z": [float(x) for x in z]}, "key": {}})
+            # "softmax of a Gaussian vector" is the mechanism; the statement only asks for a strictly
+            # positive convex combination, so this is recorded, not judged
+            if got.shape == (n,) and d <= tol:
+                stats["reach.random_equals_softmax_of_recorded_draw"] = 1
         else:
             stats["reach.seam_not_reached"] = 1
         if w_t is not None:
